@@ -294,13 +294,19 @@ pub struct Case {
     /// `plan` holds a hard error on fd 1 (reader gone, disk full) placed at a particular write of this very program: the run
     /// may then end at that print instead of at the guest fault, but never by a signal, and what arrived is a prefix
     pub hard_stdout: bool,
+    /// stderr cannot be written (its reader went away: EPIPE from the first write on fd 2): the diagnostic is lost, but the run
+    /// still ends with a non-zero status that is not a signal, and stdout is exact
+    pub stderr_dead: bool,
+    /// the same path held another program a moment ago: the marked base is written to x.fml and run first, then the injected
+    /// program replaces it (same second, same size class) and is run — whatever an earlier invocation left must not matter
+    pub prior_run: bool,
 }
 
 impl Case {
     pub fn to_json(&self) -> Value {
         json!({"engine": ENGINE, "kind": "injection", "base": self.base, "k": self.k, "class": self.class, "placement": self.placement,
                "path": if self.path == Path::Run { "run" } else { "staged" }, "profile": self.profile.name(), "channel": self.channel,
-               "plan": self.plan, "hash_seed": self.hash_seed, "rplan": self.rplan, "hard_stdout": self.hard_stdout})
+               "plan": self.plan, "hash_seed": self.hash_seed, "rplan": self.rplan, "hard_stdout": self.hard_stdout, "stderr_dead": self.stderr_dead, "prior_run": self.prior_run})
     }
     pub fn from_json(v: &Value) -> Option<Case> {
         Some(Case {
@@ -315,6 +321,8 @@ impl Case {
             hash_seed: v.get("hash_seed")?.as_u64()?,
             rplan: v.get("rplan").and_then(|x| x.as_str()).unwrap_or("").to_string(),
             hard_stdout: v.get("hard_stdout").and_then(|x| x.as_bool()).unwrap_or(false),
+            stderr_dead: v.get("stderr_dead").and_then(|x| x.as_bool()).unwrap_or(false),
+            prior_run: v.get("prior_run").and_then(|x| x.as_bool()).unwrap_or(false),
         })
     }
 }
@@ -347,7 +355,22 @@ pub fn run_source(source: &str, path: Path, profile: Profile, channel: &str, pla
 
 /// `rplan`: transient read faults on the fd the source / image is read from; `env`: extra environment of every child.
 pub fn run_source_ext(source: &str, path: Path, profile: Profile, channel: &str, plan: &str, rplan: &str, env: &[(String, String)], seed: u64) -> Observed {
+    run_source_after(None, source, path, profile, channel, plan, rplan, env, seed)
+}
+
+/// `prior`: a program that sat at the same path and was run there (fault-free) just before.
+pub fn run_source_after(prior: Option<&str>, source: &str, path: Path, profile: Profile, channel: &str, plan: &str, rplan: &str, env: &[(String, String)], seed: u64) -> Observed {
     let dir = scratch_dir();
+    if let Some(p) = prior {
+        std::fs::write(dir.join("x.fml"), p).unwrap();
+        let mut c = Child::new(profile, &["run", "x.fml"]);
+        c.shim = shim(seed, "");
+        c.stdout = Out::Null;
+        let _ = run_child(&dir, &c);
+        if path == Path::Staged {
+            for args in [vec!["parse", "x.fml", "-o", "x.json"], vec!["compile", "x.json", "-o", "x.bc"]] { let mut c = Child::new(profile, &args); c.shim = shim(seed, ""); let _ = run_child(&dir, &c); }
+        }
+    }
     std::fs::write(dir.join("x.fml"), source).unwrap();
     let mut children = 0;
     let mut early = None;
@@ -482,7 +505,7 @@ pub fn judge(case: &Case, base_stdout: &[u8], own: &str, own_exact: bool, o: &Ob
         return Some((what.into(), format!("class {} placement {} position {}: stdout has {} bytes, expected {} (prefix {} + own {}), first difference at {}",
             case.class, case.placement, case.k, o.stdout.len(), expected.len(), prefix.len(), own.len(), at)));
     }
-    if o.stderr.is_empty() {
+    if o.stderr.is_empty() && !case.stderr_dead {
         return Some(("O3:no_diagnostic_on_stderr".into(), format!("class {} failed with {} but stderr is empty", case.class, o.exit.show())));
     }
     None
@@ -497,7 +520,9 @@ pub fn replay_case(case: &Case) -> Result<Option<(String, String)>, String> {
     let f = fault(&case.class, case.k);
     let (stmts, own, exact) = place(&f, &case.placement, case.k);
     let source = work::join_stmts(&injected(&case.base, case.k, &stmts));
-    let o = run_source_ext(&source, case.path, case.profile, &case.channel, &case.plan, &case.rplan, &[], case.hash_seed);
+    let plan = if case.stderr_dead { join_plans(&case.plan, "e:0:x:32") } else { case.plan.clone() };
+    let prior = if case.prior_run { Some(work::join_stmts(&with_markers(&case.base))) } else { None };
+    let o = run_source_after(prior.as_deref(), &source, case.path, case.profile, &case.channel, &plan, &case.rplan, &[], case.hash_seed);
     Ok(judge(case, &base_stdout, &own, exact, &o))
 }
 
@@ -517,6 +542,8 @@ pub fn minimise(case: &Case, oracle: &str) -> Case {
         c.rplan = String::new();
         if still(&c) { best = c; }
     }
+    if best.stderr_dead { let mut c = best.clone(); c.stderr_dead = false; if still(&c) { best = c; } }
+    if best.prior_run { let mut c = best.clone(); c.prior_run = false; if still(&c) { best = c; } }
     // statements after the injection point never run: drop them first, then earlier ones
     let mut j = best.base.len();
     while j > 0 {
@@ -888,7 +915,7 @@ fn exercise_base(idx: usize, base: &[String], rng: &mut Rng, thorough: bool) -> 
                 };
                 // one case in five: transient faults on the fd the program is read from (the first or second read interrupted, short deliveries)
                 let rplan = match rng.below(10) { 0 => format!("r:{}:e:0", rng.below(2)), 1 => format!("r:*:l:{}", rng.pick(&[1u32, 7, 100])), _ => String::new() };
-                let mut case = Case { base: base.to_vec(), k, class: class.to_string(), placement: placement.to_string(), path, profile, channel: channel.to_string(), plan, hash_seed, rplan, hard_stdout: false };
+                let mut case = Case { base: base.to_vec(), k, class: class.to_string(), placement: placement.to_string(), path, profile, channel: channel.to_string(), plan, hash_seed, rplan, hard_stdout: false, stderr_dead: rng.below(12) == 0, prior_run: rng.below(10) == 0 };
                 let want_hard_stdout = rng.below(6) == 0;
                 let (hard_at, hard_errno, hard_short) = (rng.below(4), *rng.pick(&[28u32, 32, 5, 27]), rng.coin());
                 let key = (path, profile);
@@ -923,9 +950,13 @@ fn exercise_base(idx: usize, base: &[String], rng: &mut Rng, thorough: bool) -> 
                         case.hard_stdout = true;
                     }
                 }
-                let o = run_source_ext(&source, path, profile, channel, &case.plan, &case.rplan, &[], hash_seed);
+                let plan_now = if case.stderr_dead { join_plans(&case.plan, "e:0:x:32") } else { case.plan.clone() };
+                let prior = if case.prior_run { Some(work::join_stmts(&with_markers(base))) } else { None };
+                let o = run_source_after(prior.as_deref(), &source, path, profile, channel, &plan_now, &case.rplan, &[], hash_seed);
                 out.children += o.children;
                 out.evaluations += 1;
+                if case.stderr_dead { out.counters.push(("injections_with_stderr_unwritable".into(), 1)); }
+                if case.prior_run { out.counters.push(("injections_run_after_another_program_at_the_same_path".into(), 1)); }
                 if case.hard_stdout && o.hard_fired { out.counters.push(("injections_with_hard_error_on_stdout_fired".into(), 1)); }
                 if !case.rplan.is_empty() { out.counters.push(("injections_with_transient_faults_on_the_source_fd".into(), 1)); }
                 out.distinct.push(digest_of(&(digest, k, class, placement, path, profile, channel, &case.plan, &case.rplan)));
